@@ -224,6 +224,30 @@ def library_raised(exc):
     return "library-raised:%s:%s" % (type(exc).__name__, where)
 
 
+CASE_WATCHDOG_S = 300
+
+
+def _arm_watchdog(rep):
+    """One generated case never takes minutes; if one does, the library (or the harness) is stuck inside a call that does
+    not return.  A hang is reported as inconclusive (exit 2), never as a violation - except where the property itself is
+    about calls returning in time (C18 has its own, stricter handling)."""
+    if getattr(rep, "_watchdog", None):
+        return
+    import threading
+
+    def watch():
+        while True:
+            time.sleep(5)
+            t = getattr(rep, "busy_since", None)
+            if t is not None and time.time() - t > CASE_WATCHDOG_S:
+                print("INCONCLUSIVE: watchdog - one generated case has been running for more than %d s (a call that never returns); "
+                      "nothing is concluded from it" % CASE_WATCHDOG_S, flush=True)
+                os._exit(2)
+
+    rep._watchdog = threading.Thread(target=watch, daemon=True)
+    rep._watchdog.start()
+
+
 def run_hypothesis(rep, strategy, body, max_examples, label="", describe=None, stop_after=1):
     """Run `body(case)` over `strategy` with Hypothesis.
 
@@ -237,8 +261,17 @@ def run_hypothesis(rep, strategy, body, max_examples, label="", describe=None, s
     state = {"last": None, "first": None, "best": None, "runs_after": 0, "t_fail": None}
     SHRINK_RUNS, SHRINK_SECONDS = 600, 25.0
 
+    _arm_watchdog(rep)
+
     def wrapped(case):
         state["last"] = case
+        rep.busy_since = time.time()
+        try:
+            return wrapped_inner(case)
+        finally:
+            rep.busy_since = None
+
+    def wrapped_inner(case):
         if state["first"] is not None:
             # bounded shrinking: once the budget is used up every further candidate "passes",
             # so the shrinker stops; the verdict is unaffected (the failure is already recorded)
